@@ -697,12 +697,13 @@ func (e *env) bbListener(d caseDesc, form string) {
 	}
 	for attempt := 0; attempt < 4; attempt++ {
 		p := freePort()
-		a := resolve(in.Addr, p, fport, e.tmp, d.N)
-		fwd := resolve(in.Fwd, p, fport, e.tmp, d.N)
+		uniq := d.N*100 + attempt*10 + len(form)
+		a := resolve(in.Addr, p, fport, e.tmp, uniq)
+		fwd := resolve(in.Fwd, p, fport, e.tmp, uniq)
 		var nat *ref
 		var cli string
 		if in.Raw != "" {
-			cli = resolve(in.Raw, p, fport, e.tmp, d.N)
+			cli = resolve(in.Raw, p, fport, e.tmp, uniq)
 			nat = rawRef(in, cli)
 			a = cli
 			if pp := strings.Split(cli, "~"); len(pp) >= 2 {
